@@ -103,6 +103,38 @@ def value_of(name, rng, cls, is3d):
     return inspect.Parameter.empty
 
 
+def plain(v, depth=0):
+    """value as nested lists / dicts / scalars (for comparison with a float tolerance)"""
+    if depth > 8 or v is None or isinstance(v, (bool, int, float, str)):
+        return v
+    if isinstance(v, (list, tuple)):
+        return [plain(x, depth + 1) for x in v]
+    if isinstance(v, dict):
+        return {str(k): plain(x, depth + 1) for k, x in v.items()}
+    if hasattr(v, 'to_dict'):
+        try:
+            return plain(v.to_dict(), depth + 1)
+        except Exception:
+            pass
+    if hasattr(v, 'to_array'):
+        try:
+            return plain(v.to_array(), depth + 1)
+        except Exception:
+            pass
+    return repr(v)
+
+
+def loose_eq(a, b):
+    if isinstance(a, float) or isinstance(b, float):
+        return isinstance(a, (int, float)) and isinstance(b, (int, float)) and not isinstance(a, bool) and not isinstance(b, bool) \
+            and abs(a - b) <= 1e-9 * max(1.0, abs(a), abs(b))
+    if isinstance(a, list) and isinstance(b, list):
+        return len(a) == len(b) and all(loose_eq(x, y) for x, y in zip(a, b))
+    if isinstance(a, dict) and isinstance(b, dict):
+        return set(a) == set(b) and all(loose_eq(a[k], b[k]) for k in a)
+    return a == b
+
+
 def callables_of(cls):
     out = []
     for name in sorted(dir(cls)):
@@ -156,6 +188,28 @@ def run_one(ctx, rng, clsname, name, kind, fn):
             ctx.violation('%s.%s:mutates_receiver' % (clsname, name), 'reading the property changed the observable value of the object', {'class': clsname, 'member': name})
         if snap(r1) != snap(r2):
             ctx.violation('%s.%s:not_repeatable' % (clsname, name), 'two reads gave different values', {'class': clsname, 'member': name})
+        # a read leaves no trace: after reading some OTHER property first, this one has the value it has on an untouched equal object
+        others = [n for n, k, _ in callables_of(cls) if k == 'property' and n != name]
+        for mode in (['all', 'all', 'one', 'one'] if others else []):
+            firsts = [rng.choice(others)] if mode == 'one' else rng.sample(others, len(others))
+            try:
+                a_ = Bd.make(rng, clsname); b_ = copy.deepcopy(a_)
+            except Exception:
+                return
+            for first in firsts:
+                try:
+                    getattr(a_, first)
+                except Exception:
+                    pass
+            try:
+                va, vb = getattr(a_, name), getattr(b_, name)
+            except Exception:
+                continue
+            if not loose_eq(plain(va), plain(vb)):
+                ctx.violation('%s.%s:depends_on_earlier_read' % (clsname, name), 'after reading %s first the property is %s, on an untouched equal object %s' % (
+                    firsts[0] if mode == 'one' else 'every other property', repr(snap(va))[:200], repr(snap(vb))[:200]),
+                    {'class': clsname, 'member': name, 'first': firsts, 'object': a_.to_dict() if hasattr(a_, 'to_dict') else repr(a_)})
+                break
         return
     args = build_args(fn, kind, rng, clsname, is3d)
     if args is None:
